@@ -1,0 +1,29 @@
+// Verification hooks (cargo feature `verif_hooks`, off by default).
+//
+// A process-wide callback that an external model-checking harness may install in order to
+// gain control at the points where the library draws randomness. The callback only observes
+// (and may block the calling thread to impose a schedule); it never supplies any value.
+// With no callback installed `point` is a no-op.
+
+use std::sync::RwLock;
+
+/// Places at which the harness gains control.
+#[derive(Debug, Clone, Copy, PartialEq, Eq)]
+pub enum Point {
+    /// Immediately before a salt is drawn from the thread-local generator.
+    SaltDraw,
+}
+
+static HOOK: RwLock<Option<fn(Point)>> = RwLock::new(None);
+
+/// Installs (or, with `None`, removes) the process-wide callback.
+pub fn install(f: Option<fn(Point)>) {
+    *HOOK.write().unwrap_or_else(|e| e.into_inner()) = f;
+}
+
+pub(crate) fn point(p: Point) {
+    let f = *HOOK.read().unwrap_or_else(|e| e.into_inner());
+    if let Some(f) = f {
+        f(p);
+    }
+}
